@@ -1,6 +1,7 @@
 package props
 
 import (
+	"strings"
 	"verif/checker/internal/core"
 	"verif/checker/internal/fam"
 	"verif/checker/internal/gen"
@@ -22,7 +23,16 @@ func C19(c *core.Ctx) {
 	rules := ruleSet("A-AON", "A-NILG")
 	for _, cfg := range tierConfigs(c.Tier) {
 		for _, mb := range broadMembers(c.Tier, cfg) {
-			runMember(c, mb, rules, 256, func(w *fam.World, fm *fam.FileModel) []fam.Issue {
+			budget := 256
+			if cfg.MinSizedInts {
+				// every bound is a region decision: two-sided numeric-exclusive members have thousands of cells and are
+				// left to the A-SIZED families of C15
+				if strings.Contains(mb.name, "emin=num emax=num") || strings.Contains(mb.name, "anyOf") {
+					continue
+				}
+				budget = 8192
+			}
+			runMember(c, mb, rules, budget, func(w *fam.World, fm *fam.FileModel) []fam.Issue {
 				return fam.MethodIssues(fm)
 			})
 		}
@@ -41,7 +51,16 @@ func C17(c *core.Ctx) {
 	rules := ruleSet("A-SIB")
 	for _, cfg := range tierConfigs(c.Tier) {
 		for _, mb := range broadMembers(c.Tier, cfg) {
-			runMember(c, mb, rules, 256, func(w *fam.World, fm *fam.FileModel) []fam.Issue {
+			budget := 256
+			if cfg.MinSizedInts {
+				// every bound is a region decision: two-sided numeric-exclusive members have thousands of cells and are
+				// left to the A-SIZED families of C15
+				if strings.Contains(mb.name, "emin=num emax=num") || strings.Contains(mb.name, "anyOf") {
+					continue
+				}
+				budget = 8192
+			}
+			runMember(c, mb, rules, budget, func(w *fam.World, fm *fam.FileModel) []fam.Issue {
 				return fam.SibIssues(fm)
 			})
 		}
